@@ -31,6 +31,16 @@ def success_returns(fn):
     return [r for r in fn.returns() if query.returned_constant(r) in ("ECONF_SUCCESS", 0)]
 
 
+def delegate_getter(fn):
+    """a typed getter that has no conversion call of its own but hands the text to ANOTHER typed getter: that getter's name"""
+    if any(c.j.get("callee") in STRTO for c in fn.calls()):
+        return None
+    for c in fn.calls():
+        if c.j.get("callee") in GETTERS and c.j.get("callee") != fn.name:
+            return c.j["callee"]
+    return None
+
+
 def strto_call(fn):
     cs = [c for c in fn.calls() if c.j.get("callee") in STRTO]
     if len(cs) != 1:
